@@ -34,17 +34,28 @@
 (*   MsgOp           = handleMessage(): sender-key lookup, scope test,      *)
 (*                     decide now or hold back.                             *)
 (*                                                                         *)
-(* ASSUMPTIONS (stated in docs/C18.md): key ids are fingerprints, each     *)
-(* owned by exactly one account (KeyOwner); the e2ee layer reports the     *)
-(* true sender key, so the sender key of a message from account x is a key *)
-(* of x; a trust message lists an owner at most once and a key in at most  *)
-(* one direction.                                                          *)
+(* A KEY IS AN (owner, key id) PAIR.  Key ids are shared between owners:    *)
+(* the id "k" names three different keys (own,k), (a,k), (b,k); messages   *)
+(* may name the same id under several owners with equal or opposite        *)
+(* decisions, and every level, held decision and predicate is per pair.    *)
+(* The model is the INTENDED behaviour: DropSubsumed removes held          *)
+(* decisions with the same owner AND key id AND direction as one that      *)
+(* fires (the storage call of the unchanged code matched on the key id     *)
+(* alone: fixes/C18-postponed-removal-ignores-owner.patch).                *)
+(*                                                                         *)
+(* ASSUMPTIONS (stated in docs/C18.md): the ids of keys that SEND trust    *)
+(* messages (o1, o2, a1, b1) belong to one account each -- the storage         *)
+(* interface remembers a held decision under the sender's key id only, so  *)
+(* the sender of a held decision is SenderPairOf(sk); the e2ee layer       *)
+(* reports the true sender key, so the sender key of a message from        *)
+(* account x is a key of x; a trust message lists an owner at most once    *)
+(* and a key (pair) in at most one direction.                              *)
 (***************************************************************************)
 EXTENDS Naturals, Sequences, FiniteSets, TLC
 
 CONSTANTS Senders,      \* key ids that send trust messages
           EchoSenders,  \* sender keys used for the own-full-JID echo
-          MsgKeys,      \* key ids a trust message may name
+          MsgKeys,      \* key ids a trust message may name (under each of their owners)
           MaxDec,       \* max decisions per trust message
           ManualMax,    \* max keys per manual decision
           Combos,       \* set of <<policy, initial levels>>: {"None","Toakafa"} \X {"blank","auto","mixed"}
@@ -60,12 +71,14 @@ mvars == <<lv, pp, policy>>
 vars  == <<lv, pp, policy, init0, hist>>
 
 AcctSeq == <<"own", "a", "b">>
-KeySeq  == <<"o1", "o2", "a1", "a2", "b1">>
+KeySeq  == <<"o1", "o2", "a1", "b1", "k">>      \* key ids; "k" exists under every account
 Accounts == {AcctSeq[i] : i \in DOMAIN AcctSeq}
 Keys     == {KeySeq[i] : i \in DOMAIN KeySeq}
-KeyOwner == [o1 |-> "own", o2 |-> "own", a1 |-> "a", a2 |-> "a", b1 |-> "b"]
+SenderOwner == [o1 |-> "own", o2 |-> "own", a1 |-> "a", b1 |-> "b"]     \* ids of sending devices: one account each
+SenderIds == DOMAIN SenderOwner
 Pairs    == Accounts \X Keys
-Owned    == {<<KeyOwner[k], k>> : k \in Keys}
+\* the keys that exist: every sending device's key and the shared id under every account
+Owned    == {<<SenderOwner[k], k>> : k \in SenderIds} \cup {<<o, "k">> : o \in Accounts}
 Levels   == {"Und", "ADis", "MDis", "ATru", "MTru", "Auth"}   \* QXmpp::TrustLevel
 Own      == "own"
 
@@ -81,14 +94,18 @@ RangeOf(s) == {s[i] : i \in DOMAIN s}
 SeqOf(S, order) == SelectSeq(order, LAMBDA x : x \in S)
 
 (* --- the code paths ------------------------------------------------------ *)
+\* the key a held decision was sent with (see ASSUMPTIONS)
+SenderPairOf(sk) == <<IF sk \in SenderIds THEN SenderOwner[sk] ELSE "?", sk>>
+
 DistrustOp(s, D) ==
     IF D = {} THEN s
     ELSE [lv |-> [p \in DOMAIN s.lv |-> IF p \in D THEN "MDis" ELSE s.lv[p]],
-          pp |-> {h \in s.pp : h.sk \notin KeyIds(D)}]
+          pp |-> {h \in s.pp : SenderPairOf(h.sk) \notin D}]
 
-\* removeKeysForPostponedTrustDecisions(encryption, idsForAuthentication, idsForDistrusting)
+\* removal of the decisions that fire and of identical ones held for other senders:
+\* same owner, same key id, same direction
 DropSubsumed(held, A, D) ==
-    {h \in held : ~((h.t /\ h.k \in KeyIds(A)) \/ (~h.t /\ h.k \in KeyIds(D)))}
+    {h \in held : ~((h.t /\ <<h.o, h.k>> \in A) \/ (~h.t /\ <<h.o, h.k>> \in D))}
 
 RECURSIVE AuthenticateOp(_, _, _)
 AuthenticateOp(s, S, pol) ==
@@ -97,8 +114,8 @@ AuthenticateOp(s, S, pol) ==
              lv2 == IF pol = "Toakafa"
                     THEN [p \in DOMAIN lv1 |-> IF p[1] \in OwnersOf(S) /\ lv1[p] = "ATru" THEN "ADis" ELSE lv1[p]]
                     ELSE lv1
-             \* makePostponedTrustDecisions(keyIds.values()): looked up by sender key id
-             F == {h \in s.pp : h.sk \in KeyIds(S)}
+             \* makePostponedTrustDecisions(): what the newly authenticated keys sent
+             F == {h \in s.pp : SenderPairOf(h.sk) \in S}
              A == {<<h.o, h.k>> : h \in {g \in F : g.t}}
              D == {<<h.o, h.k>> : h \in {g \in F : ~g.t}}
              s1 == AuthenticateOp([lv |-> lv2, pp |-> DropSubsumed(s.pp, A, D)], A, pol)
@@ -143,13 +160,13 @@ React(s, ev, pol) ==
       [] OTHER             -> s           \* OwnEcho: message.from() == own full JID
 
 (* --- universe of the bounded model ---------------------------------------- *)
-Decisions == {[o |-> KeyOwner[k], k |-> k, t |-> t] : k \in MsgKeys, t \in BOOLEAN}
+Decisions == {[o |-> p[1], k |-> p[2], t |-> t] : p \in {q \in Owned : q[2] \in MsgKeys}, t \in BOOLEAN}
 MsgDecs == {ds \in SUBSET Decisions :
               /\ Cardinality(ds) >= 1 /\ Cardinality(ds) <= MaxDec
-              /\ \A d1, d2 \in ds : d1.k = d2.k => d1 = d2}
+              /\ \A d1, d2 \in ds : (d1.o = d2.o /\ d1.k = d2.k) => d1 = d2}
 MsgUniverse == {OwnersSeq(ds) : ds \in MsgDecs}
 EchoUniverse == {OwnersSeq(ds) : ds \in {x \in MsgDecs : Cardinality(x) = MaxDec}}
-KeysOfAcct(o) == {k \in Keys : KeyOwner[k] = o}
+KeysOfAcct(o) == {p[2] : p \in {q \in Owned : q[1] = o /\ q[2] \in MsgKeys}}
 ManualChoices ==
     {[a |-> "Manual", o |-> c.o, auth |-> SeqOf(c.A, KeySeq), dis |-> SeqOf(c.D, KeySeq)] :
         c \in {c \in [o : Accounts, A : SUBSET Keys, D : SUBSET Keys] :
@@ -158,10 +175,14 @@ ManualChoices ==
                  /\ Cardinality(c.A \cup c.D) >= 1 /\ Cardinality(c.A \cup c.D) <= ManualMax}}
 
 InitLv(n) ==
-    LET owned == CASE n = "blank" -> [o1 |-> "Und", o2 |-> "Und", a1 |-> "Und", a2 |-> "Und", b1 |-> "Und"]
-                   [] n = "auto"  -> [o1 |-> "ATru", o2 |-> "ATru", a1 |-> "ATru", a2 |-> "ATru", b1 |-> "ATru"]
-                   [] n = "mixed" -> [o1 |-> "Auth", o2 |-> "MDis", a1 |-> "MTru", a2 |-> "ATru", b1 |-> "ADis"]
-    IN [p \in Pairs |-> IF p \in Owned THEN owned[p[2]] ELSE "Und"]
+    \* levels of the existing keys: the sending devices' keys by id, the shared id by owner
+    LET dev == CASE n = "blank" -> [o1 |-> "Und", o2 |-> "Und", a1 |-> "Und", b1 |-> "Und"]
+                 [] n = "auto"  -> [o1 |-> "ATru", o2 |-> "ATru", a1 |-> "ATru", b1 |-> "ATru"]
+                 [] n = "mixed" -> [o1 |-> "Auth", o2 |-> "ADis", a1 |-> "MTru", b1 |-> "ADis"]
+        shared == CASE n = "blank" -> [own |-> "Und", a |-> "Und", b |-> "Und"]
+                    [] n = "auto"  -> [own |-> "ATru", a |-> "ATru", b |-> "ATru"]
+                    [] n = "mixed" -> [own |-> "MDis", a |-> "ATru", b |-> "Und"]
+    IN [p \in Pairs |-> IF p \notin Owned THEN "Und" ELSE IF p[2] = "k" THEN shared[p[1]] ELSE dev[p[2]]]
 
 \* named choices for the constant Combos (a .cfg file cannot spell tuples)
 CombosAll == {"None", "Toakafa"} \X {"blank", "auto", "mixed"}
@@ -184,7 +205,7 @@ Do(ev) ==
     /\ UNCHANGED <<policy, init0>>
 
 Manual(c) == Do(c)
-TrustMsg(sk, ow) == Do([a |-> "TrustMsg", from |-> KeyOwner[sk], sk |-> sk, owners |-> ow])
+TrustMsg(sk, ow) == Do([a |-> "TrustMsg", from |-> SenderOwner[sk], sk |-> sk, owners |-> ow])
 OwnEcho(sk, ow) == Do([a |-> "OwnEcho", from |-> Own, sk |-> sk, owners |-> ow])
 
 Next ==
@@ -197,10 +218,9 @@ Spec == Init /\ [][Next]_vars
 (* --- property C18 ---------------------------------------------------------- *)
 (* Predicates over (pre, ev, post): pre/post are records [lv, pp] -- the      *)
 (* model's own state in Atm.cfg, what the implementation reported in          *)
-(* AtmTrace.  The sender of a held decision is identified by its key id       *)
-(* (all the storage API reports); under the ownership assumption that is the  *)
-(* pair <<KeyOwner[sk], sk>>.                                                 *)
-SenderPairOf(sk) == <<KeyOwner[sk], sk>>
+(* AtmTrace.  Everything is per (owner, key id) pair.  The sender of a held    *)
+(* decision is identified by its key id (all the storage API reports):        *)
+(* SenderPairOf(sk).                                                          *)
 IsMsg(ev) == ev.a = "TrustMsg"
 EvScoped(ev) == ScopedDecs(ev.from, DecsOf(ev.owners))
 SenderAuth(pre, ev) == pre.lv[<<ev.from, ev.sk>>] = "Auth"
@@ -265,7 +285,7 @@ P_Kept(pre, ev, post, AS, DS) ==
         \/ IsMsg(ev) /\ ~SenderAuth(pre, ev) /\ h.sk = ev.sk /\ [o |-> h.o, k |-> h.k, t |-> ~h.t] \in EvScoped(ev)
 \* (7) when a sender key becomes (manually) distrusted its held decisions are discarded
 P_Discarded(pre, ev, post) ==
-    \A k \in Keys :
+    \A k \in SenderIds :
         (pre.lv[SenderPairOf(k)] # "MDis" /\ post.lv[SenderPairOf(k)] = "MDis") => \A h \in post.pp : h.sk # k
 
 PropNames == {"Justified", "Echo", "Applied", "Held", "HeldOnlyScoped", "Kept", "Discarded"}
@@ -287,19 +307,21 @@ StepOK == [][Failed(St, hist'[Len(hist')], [lv |-> lv', pp |-> pp']) = {}]_vars
 (* state invariants of the design *)
 TypeOK ==
     /\ lv \in [Pairs -> Levels]
-    /\ \A h \in pp : h.sk \in Keys /\ h.o \in Accounts /\ h.k \in Keys /\ h.t \in BOOLEAN
+    /\ \A h \in pp : h.sk \in SenderIds /\ <<h.o, h.k>> \in Owned /\ h.t \in BOOLEAN
     /\ policy \in {"None", "Toakafa"}
 NoHeldFromAuthenticated == \A h \in pp : lv[SenderPairOf(h.sk)] # "Auth"
-HeldInScope == \A h \in pp : KeyOwner[h.sk] = Own \/ KeyOwner[h.sk] = h.o
+HeldInScope == \A h \in pp : SenderOwner[h.sk] = Own \/ SenderOwner[h.sk] = h.o
 OneDirectionPerSender == \A h1, h2 \in pp : (h1.sk = h2.sk /\ h1.o = h2.o /\ h1.k = h2.k) => h1 = h2
 ForeignPairsUntouched == \A p \in Pairs \ Owned : lv[p] = "Und"
 
 \* step classification (coverage counters of the trace validator; vacuity guard)
+KindNames == {"change", "direct", "held", "fired", "cascade2", "discarded", "subsumed", "demoted", "outOfScope",
+              "echo", "conflict", "sameIdMsg", "sameIdHeld", "otherOwnerKept"}
 StepKinds(pre, ev, post) ==
     LET AS == AuthSet(pre, ev)
         DS == DisSetOf(pre, ev, AS)
         gone == pre.pp \ post.pp IN
-    {n \in {"change", "direct", "held", "fired", "cascade2", "discarded", "subsumed", "demoted", "outOfScope", "echo", "conflict"} :
+    {n \in KindNames :
         CASE n = "change"     -> post.lv # pre.lv
           [] n = "direct"     -> IsMsg(ev) /\ SenderAuth(pre, ev) /\ post.lv # pre.lv
           [] n = "held"       -> post.pp \ pre.pp # {}
@@ -311,7 +333,12 @@ StepKinds(pre, ev, post) ==
           [] n = "demoted"    -> \E p \in DOMAIN pre.lv : pre.lv[p] = "ATru" /\ post.lv[p] = "ADis"
           [] n = "outOfScope" -> IsMsg(ev) /\ EvScoped(ev) # DecsOf(ev.owners)
           [] n = "echo"       -> ev.a = "OwnEcho"
-          [] n = "conflict"   -> AS \cap DS # {}}
+          [] n = "conflict"   -> AS \cap DS # {}
+          \* the same key id under two owners: named by one message / held for one sender /
+          \* a decision on (o,k) fires or is dropped while one on (o2,k) of the same direction stays held
+          [] n = "sameIdMsg"  -> ev.a # "Manual" /\ \E d1, d2 \in DecsOf(ev.owners) : d1.k = d2.k /\ d1.o # d2.o
+          [] n = "sameIdHeld" -> \E h1, h2 \in post.pp : h1.sk = h2.sk /\ h1.k = h2.k /\ h1.o # h2.o
+          [] n = "otherOwnerKept" -> \E h \in gone : \E g \in post.pp \cap pre.pp : g.k = h.k /\ g.t = h.t /\ g.o # h.o}
 
 View == <<mvars, Len(hist)>>   \* hist itself is an observation variable
 =============================================================================
